@@ -176,7 +176,11 @@ def scenario(eset, pa, sort, reply):
               W.f(td + '/info/0bad.trashinfo', '[Trash Info]\nDeletionDate=2020-01-01T00:00:00\n', 0o600, 1990)]
     for j, li in enumerate(SETS[eset]):
         loc = LOCS[li]
-        nodes += K.trashed(td, 'e%d' % j, K.quote(loc[len('/v/'):]), DATES[li], 'file' if li != 2 else 'dir', 2000 + 20 * j)
+        raw = None
+        if j == 0:
+            # (the first record was written with CRLF line endings by another tool: text-mode readers do not care)
+            raw = K.info_text(K.quote(loc[len('/v/'):]), DATES[li]).replace('\n', '\r\n')
+        nodes += K.trashed(td, 'e%d' % j, K.quote(loc[len('/v/'):]), DATES[li], 'file' if li != 2 else 'dir', 2000 + 20 * j, raw_info=raw)
     cwd, arg = PATHARGS[pa]
     if cwd == '/v/a/foo':
         nodes.append(W.d('/v/a/foo'))  # restoring /v/a/foo itself is then refused (C06), its children are not
